@@ -297,16 +297,13 @@ def kwMaxLength (cfg : Cfg) := kwLenBound cfg "string" "tooLong" false strLen
 def kwMinProperties (cfg : Cfg) := kwLenBound cfg "object" "minProperties" true objLen
 def kwMaxProperties (cfg : Cfg) := kwLenBound cfg "object" "maxProperties" false objLen
 
-def kwUniqueItems (env : Env) (cfg : Cfg) (uI inst : Json) : Gen :=
+def kwUniqueItems (cfg : Cfg) (uI inst : Json) : Gen :=
   if !truthy uI then nothing else
   withRes (isTypeS cfg inst "array") fun ok =>
     if !ok then nothing else
     match inst with
     | .arr xs =>
-      match uniq env.sortPerm xs with
-      | none => stopG (.miss (.sortPerm xs))
-      | some true => nothing
-      | some false => emit [Err.fresh "uniqueItems" [inst]]
+      if uniq xs then nothing else emit [Err.fresh "uniqueItems" [inst]]
     | _ => crashG "TypeError"
 
 def kwPattern (env : Env) (cfg : Cfg) (p inst : Json) : Gen :=
@@ -383,16 +380,10 @@ def kwDependencies (cfg : Cfg) (rec : Rec) (deps inst : Json) : Gen :=
           else descendG (rec inst pd.2) none (some (.key pd.1))) dkvs
     | _, _ => crashG "AttributeError"
 
-/-- `instance == 0 or instance == 1` -/
-def isZeroOrOne (inst : Json) : Bool :=
-  pyEq inst (.num (.int 0)) || pyEq inst (.num (.int 1))
-
 def kwEnum (enums inst : Json) : Gen :=
   match enums with
   | .arr es =>
-    if isZeroOrOne inst then
-      if es.all (fun each => !equal inst each) then emit [Err.fresh "enum" [inst, enums]] else nothing
-    else if pyIn inst es then nothing else emit [Err.fresh "enum" [inst, enums]]
+    if es.all (fun each => !equal inst each) then emit [Err.fresh "enum" [inst, enums]] else nothing
   | _ => crashG "TypeError"
 
 /-- `ensure_list` -/
